@@ -200,9 +200,9 @@ func runVerify(o *verifyOpts) *verifyResult {
 			}
 			if *prop == "" || contains(c.Props, *prop) {
 				names = append(names, n)
-			} else if len(c.Props) > 0 && !c.IsLemma && !c.Content && e.inAnchorFiles(*prop, e.funcs[n]) {
-				// (byte-content contracts are checked under the properties they list only: their proofs need the
-				//  quantified content mode, which the other properties' runs do not pay for)
+			} else if len(c.Props) > 0 && !c.IsLemma && !(c.Content && len(c.ContentProps) == 0) && e.inAnchorFiles(*prop, e.funcs[n]) {
+				// (contracts that need the quantified byte-content mode unconditionally -- the encoders -- are checked under
+				//  the properties they list only; the other properties' runs do not pay for that mode)
 				// a function under contract (for some property) that lives in a file the property is anchored in is
 				// part of what the property depends on: it is checked for this property too
 				names = append(names, n)
